@@ -50,6 +50,139 @@ func (w *nsWorld) note(sc godi.Scope) {
 	w.mu.Unlock()
 }
 
+// RunFallbackHandlers: the scope middleware installed engine-wide also runs in front of the
+// framework's fallback handlers (gin NoRoute / NoMethod, echo RouteNotFound, fiber's catch-all at the
+// end of the stack; go-chi itself is not in the module cache): a request that ends there "passes the scope
+// middleware" like any other - it gets a scope, the handler sees it, and it is closed.
+func RunFallbackHandlers(c *eng.Ctx, prop string, next func() (int, bool)) {
+	for _, fw := range []string{"gin-noroute", "gin-nomethod", "echo-notfound", "fiber-catchall"} {
+		idx, mine := next()
+		if !mine {
+			continue
+		}
+		c.R.Begin(idx)
+		w := &nsWorld{closes: map[int]int{}}
+		viol := func(clause, detail string) {
+			c.R.Violation(eng.Violation{Prop: prop, Clause: clause, Sig: prop + "/" + clause + ":" + fw + ":fallback-handler-behind-the-scope-middleware", Case: idx, CaseID: "fallback-handler-" + fw,
+				Detail: fw + ", a request that ends in the framework's fallback handler behind an engine-wide scope middleware: " + detail, Replay: map[string]any{"fixture": "fallback-handlers", "framework": fw}})
+		}
+		func() {
+			defer func() {
+				if p := recover(); p != nil {
+					viol("panic", fmt.Sprintf("panic: %v", p))
+				}
+			}()
+			coll := godi.NewCollection()
+			if err := coll.AddScoped(func() *nsSvc {
+				w.mu.Lock()
+				defer w.mu.Unlock()
+				w.next++
+				return &nsSvc{w: w, id: w.next}
+			}); err != nil {
+				panic("fallback-handlers fixture: " + err.Error())
+			}
+			prov, err := coll.Build()
+			if err != nil {
+				panic("fallback-handlers fixture does not build: " + err.Error())
+			}
+			defer prov.Close()
+			const requests = 5
+			handled, noScope, mwRan := 0, 0, 0
+			see := func(sc godi.Scope, err error) {
+				w.mu.Lock()
+				handled++
+				if sc == nil || err != nil {
+					noScope++
+				}
+				w.mu.Unlock()
+				w.note(sc)
+			}
+			var do func()
+			switch fw {
+			case "gin-noroute", "gin-nomethod":
+				e := gin.New()
+				e.HandleMethodNotAllowed = true
+				e.Use(godigin.ScopeMiddleware(prov, godigin.WithMiddleware(func(sc godi.Scope, gc *gin.Context) error { w.mu.Lock(); mwRan++; w.mu.Unlock(); return nil })))
+				fallback := func(gc *gin.Context) {
+					sc, err := godi.FromContext(gc.Request.Context())
+					see(sc, err)
+					gc.Status(404)
+				}
+				e.NoRoute(fallback)
+				e.NoMethod(fallback)
+				e.GET("/known", func(gc *gin.Context) { gc.Status(200) })
+				if fw == "gin-noroute" {
+					do = func() { e.ServeHTTP(httptest.NewRecorder(), httptest.NewRequest(http.MethodGet, "/nowhere", nil)) }
+				} else {
+					do = func() { e.ServeHTTP(httptest.NewRecorder(), httptest.NewRequest(http.MethodPost, "/known", nil)) }
+				}
+			case "echo-notfound":
+				e := echo.New()
+				e.Use(godiecho.ScopeMiddleware(prov, godiecho.WithMiddleware(func(sc godi.Scope, ec echo.Context) error { w.mu.Lock(); mwRan++; w.mu.Unlock(); return nil })))
+				e.GET("/known", func(ec echo.Context) error { return ec.NoContent(200) })
+				e.RouteNotFound("/*", func(ec echo.Context) error {
+					sc, err := godi.FromContext(ec.Request().Context())
+					see(sc, err)
+					return ec.NoContent(404)
+				})
+				do = func() { e.ServeHTTP(httptest.NewRecorder(), httptest.NewRequest(http.MethodGet, "/nowhere", nil)) }
+			default:
+				app := fiber.New(fiber.Config{DisableStartupMessage: true})
+				app.Use(godifiber.ScopeMiddleware(prov, godifiber.WithMiddleware(func(sc godi.Scope, fc *fiber.Ctx) error { w.mu.Lock(); mwRan++; w.mu.Unlock(); return nil })))
+				app.Get("/known", func(fc *fiber.Ctx) error { return fc.SendStatus(200) })
+				app.Use(func(fc *fiber.Ctx) error { // the usual 404 catch-all at the end of the stack
+					see(godifiber.FromContext(fc), nil)
+					return fc.SendStatus(404)
+				})
+				defer app.Shutdown()
+				do = func() {
+					if resp, err := app.Test(httptest.NewRequest(http.MethodGet, "/nowhere", nil), -1); err == nil {
+						_ = resp.Body.Close()
+					}
+				}
+			}
+			for i := 0; i < requests; i++ {
+				do()
+			}
+			c.R.Count("fallback_handler_requests", requests)
+			pollUntil(func() bool {
+				w.mu.Lock()
+				defer w.mu.Unlock()
+				for id := 1; id <= w.next; id++ {
+					if w.closes[id] < 1 {
+						return false
+					}
+				}
+				return true
+			})
+			w.mu.Lock()
+			defer w.mu.Unlock()
+			if handled != requests {
+				viol("fallback-handler-not-reached", fmt.Sprintf("%d of %d requests reached the fallback handler", handled, requests))
+				return
+			}
+			if noScope > 0 {
+				viol("handler-without-scope", fmt.Sprintf("%d of %d requests found no scope in the request context of the fallback handler", noScope, requests))
+			}
+			if mwRan != requests {
+				viol("middleware-order", fmt.Sprintf("the configured middleware ran %d times for %d requests", mwRan, requests))
+			}
+			if w.next != requests && noScope == 0 {
+				viol("scope-per-request", fmt.Sprintf("%d requests created %d scoped instances (one scope per request)", requests, w.next))
+			}
+			for id := 1; id <= w.next; id++ {
+				switch n := w.closes[id]; {
+				case n == 0:
+					viol("scope-not-closed", fmt.Sprintf("the scoped instance %d of a finished request was never closed", id))
+				case n > 1:
+					viol("instance-close-count", fmt.Sprintf("the scoped instance %d of a finished request was closed %d times", id, n))
+				}
+			}
+		}()
+		c.R.End(idx, eng.Hash("fallback-handlers", prop, fw), true)
+	}
+}
+
 // RunNestedInstall: prop C16 judges exactly-once closing per level, prop C14 that nothing is left.
 func RunNestedInstall(c *eng.Ctx, prop string, next func() (int, bool)) {
 	for _, fw := range []string{"nethttp", "chi", "gin", "echo", "fiber"} {
